@@ -80,6 +80,19 @@ impl Property for OptProp {
                 OptRes::Unsat => return Err(Failure::new("wrong:unsat-but-sat", "Unsatisfiable but the planted assignment satisfies the long-chain model")),
                 _ => out.inconclusive = true,
             }
+            // linear UNSAT-SAT only adds clauses which the model implies: afterwards everything that is fixed at the
+            // root holds in every solution, in particular in the planted one
+            if !lsu && !out.inconclusive {
+                for (v, d) in b.doms.iter().enumerate() {
+                    let (lb, ub) = (b.solver.lower_bound(d), b.solver.upper_bound(d));
+                    if w[v] < lb || w[v] > ub {
+                        return Err(Failure::new(
+                            "wrong:root-bounds-exclude-planted-solution",
+                            format!("after linear UNSAT-SAT optimisation variable {v} of the long-chain model has root bounds [{lb}, {ub}] but the planted solution has the value {}", w[v]),
+                        ));
+                    }
+                }
+            }
             if br.stats.conflicts > 0 {
                 out.classes.push("large_planted:had_conflict".into());
             }
